@@ -125,7 +125,76 @@ fn check_product_scaled(a: &[i64], b: &[i64], sh: u32, what: &str, rep: &mut Rep
     }
 }
 
+/// Round trips and products at the EDGES of the floating-point range: coefficient vectors scaled
+/// by 2^e for e down to the subnormal range (results below 2^-1022) and up to 2^1000. An inverse
+/// transform that divides by n by editing exponent bits, or scales in two steps, is exact for
+/// ordinary magnitudes and wrong only here.
+fn check_extreme_magnitudes(pattern: &[i64], e: i32, what: &str, rep: &mut Report) {
+    rep.evaluations += 1;
+    let n = pattern.len();
+    // 2^e without powi (which flushes to zero below 2^-1022 in one step)
+    let mut sc = 1.0f64;
+    for _ in 0..e.abs() {
+        sc = if e < 0 { sc * 0.5 } else { sc * 2.0 };
+    }
+    let af: Vec<f64> = pattern.iter().map(|&x| x as f64 * sc).collect();
+    if af.iter().any(|x| !x.is_finite()) {
+        return;
+    }
+    let replay = || json!({"kind": "extreme-magnitude", "pattern": pattern, "exponent": e, "note": "re-run the leg"});
+    let ac = to_c(&af);
+    let unit = to_c(&pattern.iter().map(|&x| x as f64).collect::<Vec<f64>>());
+    let r = monitored(|| {
+        let fa = vh::cfft(&ac);
+        let fu = vh::cfft(&unit);
+        (vh::cifft(&fa), fa, fu)
+    });
+    match r {
+        Err(p) => rep.violation(&format!("panic:fft@{}", short_loc(&p.location)), format!("n={} ({}, 2^{}): {}", n, what, e, p.message), replay()),
+        Ok((rt, fa, fu)) => {
+            // (the norm is taken before scaling: squares of 2^-600 underflow)
+            let na = norm2(&pattern.iter().map(|&x| x as f64).collect::<Vec<f64>>()) * sc;
+            // subnormal arithmetic has an absolute resolution of 2^-1074: allow n log n of them
+            let slack = 5e-324 * 64.0 * (n as f64) * ((n as f64).log2() + 1.0);
+            let e_rt = rt.iter().zip(af.iter()).map(|((re, im), x)| (re - x).abs().max(im.abs())).fold(0.0, f64::max);
+            if !(e_rt <= TOL * na + slack) {
+                rep.violation("fft:roundtrip-extreme-magnitude", format!("ifft(fft(a)) differs from a by {:e} (||a|| = {:e}) for n={} ({} scaled by 2^{})", e_rt, na, n, what, e), replay());
+            }
+            // linearity: the transform of 2^e a is 2^e times the transform of a
+            let nf = fu.iter().map(|(re, im)| re * re + im * im).sum::<f64>().sqrt() * sc;
+            let e_l = fa.iter().zip(fu.iter()).map(|(x, y)| (x.0 - y.0 * sc).abs().max((x.1 - y.1 * sc).abs())).fold(0.0, f64::max);
+            if nf.is_finite() && !(e_l <= TOL * nf + slack) {
+                rep.violation("fft:scaling-extreme-magnitude", format!("fft(2^{} a) differs from 2^{} fft(a) by {:e} for n={} ({})", e, e, e_l, n, what), replay());
+            }
+            rep.count("extreme_magnitude_round_trips", 1);
+            if af.iter().any(|x| *x != 0.0 && x.abs() < f64::MIN_POSITIVE) {
+                rep.count("round_trips_with_subnormal_coefficients", 1);
+            }
+        }
+    }
+}
+
 pub fn accuracy(ctx: &Ctx, rep: &mut Report) {
+    {
+        let r = par_for(10, ncpu(), |k, rep| {
+            let n = 2usize << k;
+            let mut rng = rng_for(ctx.seed, &format!("c13-extreme-{}", n));
+            let mut pats: Vec<(String, Vec<i64>)> = vec![];
+            pats.push(("random +-1024".into(), (0..n).map(|_| rng.gen_range(-1024..=1024)).collect()));
+            pats.push(("constant 1".into(), vec![1i64; n]));
+            let mut imp = vec![0i64; n];
+            imp[n - 1] = 1;
+            pats.push(("impulse at n-1".into(), imp));
+            pats.push(("alternating 3".into(), (0..n).map(|i| if i % 2 == 0 { 3 } else { -3 }).collect()));
+            for (name, p_) in &pats {
+                for e in [-1074i32, -1070, -1062, -1050, -1040, -1030, -1024, -1023, -1022, -1021, -1012, -1000, -600, -100, 100, 600, 900, 1000] {
+                    check_extreme_magnitudes(p_, e, name, rep);
+                }
+            }
+        });
+        rep.merge(r);
+        rep.require("round_trips_with_subnormal_coefficients", 100);
+    }
     let nrand = ctx.sz(2500, 250_000);
     let r = par_for(10, ncpu(), |k, rep| {
         let n = 2usize << k;
